@@ -162,7 +162,7 @@ pub struct SweepCfg {
 
 pub fn run_range(cfg: &SweepCfg, name: &str, lo: u64, size: u64) -> SweepResult {
     let t0 = Instant::now();
-    let dir = format!("{}/mc/target/sweep", crate::engine::VERIF);
+    let dir = format!("{}/mc/target/sweep", crate::engine::verif());
     let _ = std::fs::create_dir_all(&dir);
     let mut res = SweepResult { name: name.to_string(), size: size - lo, ..Default::default() };
     let mut queue: VecDeque<Job> = VecDeque::new();
